@@ -85,7 +85,7 @@ def _size(ctx, lo, hi):
 
 
 @st.composite
-def leaf(draw, dim, ctx, hint):
+def leaf(draw, dim, ctx, hint, force=None):
     """hint = (centre list, size) : where and how big the leaf should be."""
     cen, size = hint
     var = VAR_OF_DIM[dim]
@@ -98,7 +98,7 @@ def leaf(draw, dim, ctx, hint):
                 "lo": draw(_vec_param(ctx, [c[0] - half], mv)),
                 "hi": draw(_vec_param(ctx, [c[0] + half], mv))}
     if dim == 2:
-        kind = draw(st.sampled_from(["circle", "par", "par", "tri", "poly"]))
+        kind = force or draw(st.sampled_from(["circle", "par", "par", "tri", "poly"]))
         if kind == "circle":
             r = max(0.3, s / 2)
             return {"t": "circle", "var": var, "c": draw(_vec_param(ctx, c, 1.0)),
@@ -227,6 +227,37 @@ def _hint_of(E, ctx):
     return [float((l + h) / 2) for l, h in zip(lo, hi)], float(max(0.3, np.max(hi - lo) / 2))
 
 
+def _all_const(leaf_):
+    return all(v.get("k") == "const" for v in leaf_.values() if isinstance(v, dict) and "k" in v)
+
+
+def _partner(a, rel, variant):
+    """a leaf of the same type as the parameter-free interval / parallelogram `a`, placed in a's own
+    frame: 'inside' (strictly inside), 'notch' (inside, sharing a piece of a's boundary), 'attached'
+    (outside, sharing a boundary piece), 'apart' (disjoint), 'same' (identical)."""
+    if a["t"] == "interval":
+        lo, hi = a["lo"]["v"][0], a["hi"]["v"][0]
+        L = hi - lo
+        u = {"inside": (0.25, 0.75), "notch": [(0.0, 0.5), (0.5, 1.0)][variant % 2],
+             "attached": [(1.0, 1.5), (-0.5, 0.0)][variant % 2], "apart": [(1.5, 2.0), (-1.0, -0.5)][variant % 2],
+             "same": (0.0, 1.0)}[rel]
+        return {"t": "interval", "var": a["var"], "lo": const([_r(lo + u[0] * L, 6)]), "hi": const([_r(lo + u[1] * L, 6)])}
+    o = np.array(a["o"]["v"], float)
+    d1 = np.array(a["c1"]["v"], float) - o
+    d2 = np.array(a["c2"]["v"], float) - o
+    us = [(0.25, 0.75), (0.0, 0.5), (0.5, 1.0)][variant % 3]
+    u, v = {"inside": ((0.25, 0.75), (0.25, 0.625)),
+            "notch": (us, [(0.0, 0.5), (0.5, 1.0)][variant // 3 % 2]),
+            "attached": ([(0.0, 1.0), (0.25, 0.75), (0.5, 1.5)][variant % 3], [(1.0, 1.5), (-0.5, 0.0)][variant // 3 % 2]),
+            "apart": (us, [(1.5, 2.0), (-1.0, -0.5)][variant // 3 % 2]),
+            "same": ((0.0, 1.0), (0.0, 1.0))}[rel]
+    if variant % 2 and rel in ("notch", "attached", "apart"):
+        # the same along the other pair of sides
+        d1, d2 = d2, d1
+    P = lambda x, y: const([_r(float(c), 6) for c in (o + x * d1 + y * d2)])      # noqa: E731
+    return {"t": "par", "var": a["var"], "o": P(u[0], v[0]), "c1": P(u[1], v[0]), "c2": P(u[0], v[1])}
+
+
 @st.composite
 def expr(draw, dim, ctx, depth, hint=None, ops=("union", "cut", "isect", "translate", "rotate")):
     """single-variable interior expression of the given dimension."""
@@ -241,13 +272,25 @@ def expr(draw, dim, ctx, depth, hint=None, ops=("union", "cut", "isect", "transl
     choices = [o for o in ops if not (o == "rotate" and dim == 1)]
     op = draw(st.sampled_from(choices))
     if op in ("union", "cut", "isect"):
-        a = draw(expr(dim, ctx, depth - 1, hint, ops))
-        b = draw(expr(dim, ctx, depth - 1, _hint_of(a, ctx), ops))
+        rel = None
+        if dim <= 2 and draw(st.integers(0, 2)) == 0:
+            a = draw(leaf(dim, Ctx(lattice=ctx.lattice, far=ctx.far), hint, force="par"))
+        else:
+            a = draw(expr(dim, ctx, depth - 1, hint, ops))
+        if a["t"] in ("par", "interval") and _all_const(a) and draw(st.integers(0, 5)) > 0:
+            # second operand placed relative to the first one: strictly inside / apart (the situations
+            # the `contained` / `disjoint` flags are documented for) or sharing a boundary piece
+            rel = draw(st.sampled_from({"union": ["attached", "apart", "apart", "notch", "same"],
+                                        "cut": ["notch", "notch", "inside", "inside", "attached"],
+                                        "isect": ["notch", "inside", "same"]}[op]))
+            b = _partner(a, rel, draw(st.integers(0, 5)))
+        else:
+            b = draw(expr(dim, ctx, depth - 1, _hint_of(a, ctx), ops))
         node = {"t": op, "a": a, "b": b}
         if op == "union":
-            node["disjoint"] = False
+            node["disjoint"] = bool(rel == "apart" and draw(st.integers(0, 3)) > 0)
         if op == "cut":
-            node["contained"] = False
+            node["contained"] = bool(rel in ("notch", "inside") and draw(st.integers(0, 3)) > 0)
         return node
     a = draw(expr(dim, ctx, depth - 1, hint, ops))
     if op == "translate":
